@@ -219,6 +219,37 @@ def run(ctx):
                 ctx.disagree(f"conserve:{name}", f"<{name}> {v0} -> {v1} under spin-free evolution",
                              {"wfn": wk, "norb": norb, "case": case})
 
+    # ---- C2. H = h (x) 1 + 2 b S_x (one-body, spin-mixing) commutes with N and S^2 but not with S_z: on a wavefunction
+    #      holding every S_z sector of N electrons (odd and even N) <N>, <S^2> and the norm are conserved ---------
+    for case in range(12 if quick else 120):
+        norb = rng.choice([2, 3, 3])
+        nele = rng.randint(1, 2 * norb - 1)
+        ket = fqe.get_number_conserving_wavefunction(nele, norb)
+        U.random_fill(ket, rng, zero_p=0.0)
+        ket.normalize()
+        h1 = C01.rand_tensor(rng, norb, 1, 1.0, False)
+        h1 = numpy.real(h1 + h1.T).astype(numpy.complex128)
+        bx = float(rng.choice([0.3, -0.7, 1.1]))
+        z = numpy.zeros((2 * norb, 2 * norb), dtype=numpy.complex128)
+        z[:norb, :norb] = h1
+        z[norb:, norb:] = h1
+        z[:norb, norb:] = bx * numpy.eye(norb)
+        z[norb:, :norb] = bx * numpy.eye(norb)
+        t = rng.choice([0.05, 0.4, 1.3])
+        try:
+            out = ket.time_evolve(t, fqe.get_gso_hamiltonian((z,)))
+        except Exception as exc:
+            ctx.disagree(f"dynamics-raises:spin-mixing:{type(exc).__name__}", str(exc)[:200], {"norb": norb, "nele": nele, "case": case})
+            continue
+        vals = {"N": (complex(ket.expectationValue(ops["N"])), complex(out.expectationValue(ops["N"]))),
+                "S2": (complex(ket.expectationValue(ops["S2"])), complex(out.expectationValue(ops["S2"]))),
+                "norm": (complex(ket.norm()), complex(out.norm()))}
+        for name, (v0, v1) in vals.items():
+            ctx.case(("conserve-sx", name, case))
+            ctx.count(f"conserve-sx:{'odd' if nele % 2 else 'even'}-N")
+            if abs(v0 - v1) > 1e-8 * max(1.0, abs(v0)):
+                ctx.disagree(f"conserve:{name}:spin-mixing", f"<{name}> {v0} -> {v1} under H = h x 1 + 2 b S_x, which commutes with it",
+                             {"norb": norb, "nele": nele, "case": case, "t": t, "b": bx})
     # ---- D. conservation in large sectors (hundreds of strings per spin: the batched kernels of the quadratic route) ----
     # high-spin determinants are exact S^2 eigenstates; a spin-free one-body evolution must keep <S^2>, <Sz>, <N> and the norm
     from scipy.special import comb as _comb
